@@ -20,6 +20,15 @@ type State struct {
 	ghost    map[string]Value
 	binds    map[string]Value
 	defers   []deferred
+	// alias: object -> the object it was copied from as a whole struct value. The copy's model
+	// fields equal the source's for as long as the model-field array read is still the version
+	// recorded when the value was loaded.
+	alias map[Term]mfAlias
+}
+
+type mfAlias struct {
+	src  Term
+	snap map[string]Term
 }
 
 type deferred struct {
@@ -42,6 +51,12 @@ func (s *State) clone() *State {
 	}
 	for k, v := range s.binds {
 		n.binds[k] = v
+	}
+	if len(s.alias) > 0 {
+		n.alias = make(map[Term]mfAlias, len(s.alias))
+		for k, v := range s.alias {
+			n.alias[k] = v
+		}
 	}
 	n.defers = append([]deferred(nil), s.defers...)
 	return n
@@ -415,7 +430,54 @@ func (x *Exec) store(st *State, p PtrV, v Value) {
 		x.storeLeaves(st, p.Leaf.prefix, p.Leaf.idx, p.Elem, v)
 		return
 	}
+	if sv, ok := v.(StructV); ok {
+		// a whole-struct copy carries the object's model fields along
+		dst := canonObj(p.Ref)
+		if sv.Src != "" && sv.Src != dst && dst == p.Ref {
+			if st.alias == nil {
+				st.alias = map[Term]mfAlias{}
+			}
+			st.alias[dst] = mfAlias{src: sv.Src, snap: sv.SrcSnap}
+		} else if st.alias != nil {
+			delete(st.alias, dst)
+		}
+	}
 	x.storeAt(st, p.Ref, p.Elem, v, 0)
+}
+
+// mfSnapshot records the current versions of the model-field arrays.
+func (x *Exec) mfSnapshot(st *State) map[string]Term {
+	snap := map[string]Term{}
+	for name, t := range st.heap {
+		if strings.HasPrefix(name, "MF.") {
+			snap[name] = t
+		}
+	}
+	return snap
+}
+
+// mfSource resolves the object whose model-field array `name` holds the value for ref: ref
+// itself, or the object ref was copied from while that array has not changed since.
+func (x *Exec) mfSource(st *State, name string, ref Term) Term {
+	for n := 0; n < 4; n++ {
+		a, ok := st.alias[ref]
+		if !ok {
+			return ref
+		}
+		was, had := a.snap[name]
+		if !had {
+			was = sym(name + "@0")
+		}
+		cur, has := st.heap[name]
+		if !has {
+			cur = sym(name + "@0")
+		}
+		if cur != was {
+			return ref
+		}
+		ref = a.src
+	}
+	return ref
 }
 
 func setPath(cur Value, path []int, v Value) Value {
